@@ -13,10 +13,12 @@ Directives (one per line, `//@` first non-blank):
   //@ SIG "<expected real signature, whitespace-normalised>"
   //@ COPY UNTIL "<lead>"            copy everything up to (excluding) the statement starting with <lead>
   //@ COPY UNTIL CLOSE               copy up to the end of the innermost block opened by HEAD
+  //@ COPY UNTIL END                 copy everything up to the end of the region
   //@ COPY STMT [DROP "<field>:" ...]  copy exactly one statement (R1: drop the named struct-literal fields)
   //@ HEAD                           copy a loop / if header up to its `{` (brace not emitted: the template continues with invariants and `{`)
   //@ CLOSE                          consume the matching `}` (emits `}`)
   //@ REPLACE STMT|HEAD EXPECT "<real text>" WITH "<new text>" RULE <Rn>
+  //@ REPLACE BODY EXPECT "<real text up to the end of the open block>" WITH "<new text>" RULE <Rn>
   //@ SKIP STMT EXPECT "<real text>" RULE <Rn>
   //@ END                            cursor must be at the end of the region
 """
@@ -117,7 +119,7 @@ class Builder:
             if kv["last"] == "END":
                 b = c
             else:
-                bpos = self.src._find_line(kv["last"], a, c, 0)
+                bpos = self.src._find_line(kv["last"], self.src.text.rfind("\n", 0, a) + 1, c, 0)
                 b = self.src._stmt_end(bpos, c)
             self.cur, self.end = a, b
         self.stack = []
@@ -129,7 +131,11 @@ class Builder:
 
     def copy_until(self, what):
         self._skip_ws()
-        if what == "CLOSE":
+        if what == "END":
+            if self.stack:
+                raise AnchorLost("COPY UNTIL END inside an open block")
+            b = self.end
+        elif what == "CLOSE":
             if not self.stack:
                 raise AnchorLost("COPY UNTIL CLOSE outside a block")
             b = self.stack[-1]
@@ -209,6 +215,19 @@ class Builder:
         self.log.append({"rule": rule, "real": real, "verified_as": None if skip else new, "at": f"{self.file}:{self.src.line_of(a)}"})
         self.cur = e
 
+    def replace_body(self, expect, new, rule):
+        """replace everything up to the close of the innermost open block (R7: error payloads)"""
+        self._skip_ws()
+        if not self.stack:
+            raise AnchorLost("REPLACE BODY outside a block")
+        b = self.stack[-1]
+        real = norm(self.src.text[self.cur:b])
+        if real != norm(expect):
+            raise AnchorLost(f"{self.file}:{self.src.line_of(self.cur)}: block body is `{real[:120]}`, rewrite {rule} expects `{norm(expect)[:120]}`")
+        self.out.append((new, ("code", self.file, self.src.line_of(self.cur))))
+        self.log.append({"rule": rule, "real": real, "verified_as": new, "at": f"{self.file}:{self.src.line_of(self.cur)}"})
+        self.cur = b
+
     def end_region(self):
         self._skip_ws()
         if self.stack:
@@ -258,6 +277,8 @@ def build(template_path, repo="/repo"):
             assert toks[2] == "EXPECT" and toks[4] == "WITH" and toks[6] == "RULE", d
             if kind == "HEAD":
                 b.head(replace=toks[5], expect=toks[3], rule=toks[7])
+            elif kind == "BODY":
+                b.replace_body(toks[3], toks[5], toks[7])
             else:
                 b.replace_stmt(toks[3], toks[5], toks[7])
         elif op == "SKIP":
